@@ -243,8 +243,10 @@ def roots(ctx, rec, only_refresh=True):
       if view.layout['max_size'] == 1:
         retries = None
       u = U32 if not quant else 2.0 ** -15
+      x64 = bool(w.plan.get('x64', True))
       status, ratio, detail = root_oracle.check_root(
-          S, X, p, err, eps, rel, method, lam, retries, u=u)
+          S, X, p, err, eps, rel, method, lam, retries, u=u,
+          u_compute=(2.0 ** -53 if x64 else U32))
       pred = 'on_refresh_tick'
       if i in rec['poisoned']:
         pred = 'nonfinite_or_offrange_history'
@@ -300,6 +302,22 @@ def _amp(cfg, layout, g, roots_):
       k += 1
     tot += a * (sum(bshape) + 4)
   return C * U32 * tot
+
+
+def _max_intermediate(cfg, layout, g, roots_):
+  """Largest magnitude reached while applying the roots axis by axis."""
+  gt = np.asarray(g, np.float64).reshape(layout['tshape'])
+  mx = 0.0
+  k = 0
+  cr = cfg.get('compression_rank', 0)
+  for sl, _ in layout['blocks']:
+    blk = gt[sl]
+    for ax in layout['axes']:
+      blk = ref.apply_root(blk, ax, np.asarray(roots_[k], np.float64), cr)
+      if blk.size:
+        mx = max(mx, float(np.max(np.abs(blk))))
+      k += 1
+  return mx
 
 
 def _cmp(ctx, oracle, mk, t, i, impl, model, tol, what, pred='step'):
@@ -380,6 +398,11 @@ def refine(ctx, rec, oracles=('step_update', 'step_stats', 'step_momentum',
     # tolerances for quantities downstream of the preconditioned gradient
     amp = 0.0 if leaf['skip'] else _amp(cfg, leaf, g, rts)
     npg = float(np.linalg.norm(r['pg']))
+    # float32 range: the implementation's norm of the preconditioned gradient
+    # overflows / underflows where the float64 model does not
+    f32_range_bad = (not leaf['skip']) and r['pg'].size and (
+        npg * npg > 1e37 or (0 < npg * npg < 1e-37) or
+        _max_intermediate(cfg, leaf, g, rts) > 1e37)
     ngam = float(np.linalg.norm(r['gamma']))
     mult = ngam / (npg + ref.EPS) if cfg.get('graft_type', 1) != 0 else 1.0
     tol_sigma = 2.0 * mult * amp + u32 * (float(np.max(np.abs(r['sigma'])))
@@ -392,6 +415,12 @@ def refine(ctx, rec, oracles=('step_update', 'step_stats', 'step_momentum',
     tol_dmom = u32 * ((float(np.max(np.abs(ms['dmom']))) if np.size(ms['dmom'])
                        else 0.0) + (float(np.max(np.abs(r['gamma'])))
                                     if r['gamma'].size else 0.0) + wd_term)
+    if f32_range_bad:
+      ctx.probe('f32_range_exceeded')
+      for o in ('step_momentum', 'step_update'):
+        if o in oracles:
+          ctx.ev(o, 'vacuous')
+      continue
     if 'step_momentum' in oracles:
       tm, td = tol_mom, tol_dmom
       if quant_mom and len(leaf['shape']) > 1:
